@@ -49,7 +49,7 @@ theorem pin_literal_ParseNum : Gen.C09.pin_literal_ParseNum = "f62ad6ae0fe132dc"
 theorem pin_literal_NumInfo_next : Gen.C09.pin_literal_NumInfo_next = "fec08a8bae3fc87b" := by decide
 theorem pin_literal_NumInfo_digitVal : Gen.C09.pin_literal_NumInfo_digitVal = "b72d7578cbdf111a" := by decide
 theorem pin_literal_NumInfo_scanMantissa : Gen.C09.pin_literal_NumInfo_scanMantissa = "8f02c5a2db5ecd93" := by decide
-theorem pin_literal_NumInfo_scanNumber : Gen.C09.pin_literal_NumInfo_scanNumber = "225e8ba521fd787b" := by decide
+theorem pin_literal_NumInfo_scanNumber : Gen.C09.pin_literal_NumInfo_scanNumber = "a20a9ef43ec46211" := by decide
 theorem pin_scanner_Scanner_scanNumber : Gen.C09.pin_scanner_Scanner_scanNumber = "e16e2044fdc3af71" := by decide
 theorem pin_scanner_Scanner_scanMantissa : Gen.C09.pin_scanner_Scanner_scanMantissa = "d6c742f674995ae6" := by decide
 theorem pin_scanner_Scanner_scanFieldIdentifier : Gen.C09.pin_scanner_Scanner_scanFieldIdentifier = "8a2ef1e485ff91a2" := by decide
@@ -60,6 +60,6 @@ theorem pin_scanner_Scanner_next : Gen.C09.pin_scanner_Scanner_next = "4dd23fe72
 theorem pin_ast_IsValidIdent : Gen.C09.pin_ast_IsValidIdent = "da53dfe8880f02f2" := by decide
 theorem pin_ast_isLetter : Gen.C09.pin_ast_isLetter = "7aecc90050bc9728" := by decide
 theorem pin_ast_isDigit : Gen.C09.pin_ast_isDigit = "da5acf79aeff31b3" := by decide
-theorem pin_literal_NumInfo_decimal : Gen.C09.pin_literal_NumInfo_decimal = "86ad380582be13ad" := by decide
+theorem pin_literal_NumInfo_decimal : Gen.C09.pin_literal_NumInfo_decimal = "aca1b0e83663d828" := by decide
 
 end CueVerif.Bridge.C09
